@@ -1,10 +1,26 @@
-/- Driver for `kind = "c06"` (and `"c06:…"`) cases. -/
+/- Driver for `kind = "c06"` cases (SIGKILL campaign): given the call sequence, the number of acknowledged calls and
+   the dump of the reopened store, decide which prefix state of the model the dump equals. -/
 import Driver.Common
+import Driver.Store
 
 open Lean
 
 namespace Driver.C06
 
-def runCase (_j : Json) : Json := jerr "not implemented"
+def runCase (j : Json) : Json :=
+  if str! j "kind" == "store" then Driver.Store.runCase j else
+  let ops := arr! j "ops"
+  let acked := nat! j "acked"
+  let profile := (strOpt j "profile").getD "default"
+  let dump := (j.getObjVal? "dump").toOption.getD .null
+  let (stN, _) := Driver.Store.runOps (Driver.Store.initSt j) (ops.take acked)
+  let same (a b : Json) : Bool := a.compress == b.compress
+  let prefixTag :=
+    if same (Driver.Store.dumpProfile stN profile) dump then "n"
+    else match ops.drop acked with
+      | op :: _ => if same (Driver.Store.dumpProfile (Driver.Store.stepOp stN op).1 profile) dump then "n+1" else "none"
+      | [] => "none"
+  -- a store whose state is a prefix state of the model accepts further calls (the model has no "unusable" state)
+  Json.mkObj [("prefix", .str prefixTag), ("usable", .bool true)]
 
 end Driver.C06
